@@ -12,7 +12,7 @@ nde=0
 for i,(c,o) in enumerate(zip(cases,obs)):
     if "defn_error" in o:
         nde+=1; print("DEFN ERROR", o, json.dumps(c)[:300]); continue
-    terms.append("(let c := %s in let o := %s in let mo := run_case c in [if obs_eqb mo o then 0 else 1; if spec_C01 c (fst o) (snd o) then 0 else 1; if spec_C02 c (fst o) (snd o) then 0 else 1; if spec_C01 c (fst mo) (snd mo) then 0 else 1; if spec_C02 c (fst mo) (snd mo) then 0 else 1])" % (G.cq_case(c), G.cq_obs(o))); idx.append(i)
+    terms.append("(let c := %s in let o := %s in let mo := run_case c in [if obs_eqb mo o then 0 else 1; if spec_C08 c (fst o) (snd o) then 0 else 1; if spec_C09 c (fst o) (snd o) then 0 else 1; if spec_C14 c (fst o) (snd o) then 0 else 1; if spec_C16 c (fst o) (snd o) then 0 else 1])%%Z" % (G.cq_case(c), G.cq_obs(o))); idx.append(i)
 res=C.coq_eval_lists(HEADER, terms, name="dev", chunk=100)
 bad=[idx[j] for j,r in enumerate(res) if any(r)]
 print([r for r in res if any(r)][:10])
